@@ -39,11 +39,12 @@ const (
 	Yield                  // yield 20000+ID         (generator bodies only)
 	GenNew                 // var g<Var> = gen(a, Gen, G<Gen>)
 	GenOp                  // dres(g<Var>.next|return|throw(v))
+	Nest                   // var _ = nest(TD, TM): TD nested try statements (no events, no value): try-stack depth dimension
 	numKinds
 )
 
 var kindNames = [...]string{"block", "label", "if", "for", "while", "dowhile", "forin", "forof", "switch", "with", "try", "throw", "return", "break", "continue",
-	"log", "destruct", "spread", "arrayfrom", "newmap", "newset", "promiseall", "yieldstar", "yield", "gennew", "genop"}
+	"log", "destruct", "spread", "arrayfrom", "newmap", "newset", "promiseall", "yieldstar", "yield", "gennew", "genop", "nest"}
 
 func (k Kind) String() string { return kindNames[k] }
 
@@ -86,6 +87,9 @@ type Iter struct {
 	BadAt   int  // mk: next() call number that returns a non-object (0 = never)
 	Ret     int  // mk: RetMode
 	Pairs   bool // mk: items are [k,v] entry arrays (for Map)
+	TDN     int  // mk: next() first runs nest(TDN, TM)   (try-stack depth dimension; no observable effect)
+	TDR     int  // mk: return() first runs nest(TDR, TM)
+	TM      int  // nest mode: bit 0 = a throw inside, caught by the outermost level; bit 1 = by recursion (else flat)
 }
 
 type Case struct {
@@ -123,6 +127,9 @@ type Node struct {
 	Var int // GenNew / GenOp: generator variable slot
 	Gen int // GenNew: generator function index (1-based)
 	Op  int // GenOp: 0 next, 1 return, 2 throw
+
+	TD int // Nest: depth;  TM: mode (as Iter.TM)
+	TM int
 
 	Synth bool // inserted by the exit placer (for reports only)
 }
@@ -446,7 +453,7 @@ func Shape(l []*Node) string {
 				continue
 			}
 			switch n.Kind {
-			case Log:
+			case Log, Nest:
 				continue
 			case Labelled:
 				b.WriteString("L:")
@@ -501,4 +508,36 @@ func shortKind(n *Node) string {
 		s += "G"
 	}
 	return s
+}
+
+// Deepen applies the try-stack depth dimension to a program (in place; call Number() afterwards): the main body (and,
+// up to 5 levels, every generator body) is wrapped in k additional try/finally statements, every instrumented iterator's
+// next()/return() first runs tdn/tdr nested try statements of its own, and so does every finally block (tdr levels).
+// None of this has an observable effect other than T+/T-/F/F- events of the wrappers.
+func Deepen(p *Program, k, tdn, tdr, tm int) {
+	for _, b := range p.Bodies() {
+		Walk(b, func(n *Node) {
+			if n.Kind.IsConsumer() && n.Iter.Gen == 0 {
+				n.Iter.TDN, n.Iter.TDR, n.Iter.TM = tdn, tdr, tm
+			}
+			if n.Kind == Try && n.HasFinally && tdr > 0 {
+				n.Finally = append([]*Node{{Kind: Nest, TD: tdr, TM: tm, Synth: true}}, n.Finally...)
+			}
+		})
+	}
+	wrap := func(l []*Node, k int) []*Node {
+		for i := 0; i < k; i++ {
+			// leading GenNew statements stay outside (driver variables are function-level anyway)
+			l = []*Node{{Kind: Try, HasFinally: true, Stmts: l, Synth: true}}
+		}
+		return l
+	}
+	p.Main = wrap(p.Main, k)
+	for _, g := range p.Gens {
+		kk := k
+		if kk > 5 {
+			kk = 5
+		}
+		g.Body = wrap(g.Body, kk)
+	}
 }
